@@ -335,6 +335,13 @@ class Runner:
         after = self.snapshot(inline)
         changes = []
         argset = {ix for _, ix in arg_idx}
+        # the objects this call is ENTITLED to update in place: an immutable=False receiver, or the immutable=False query a
+        # Joiner finishes on.  Any other immutable=False builder must stay as it is, like every other live object
+        updated_ids = set()
+        if m["copies"] and not getattr(ro, "immutable", True):
+            updated_ids.add(id(ro))
+        if d_target is not None and not d_copies:
+            updated_ids.add(id(d_target))
         for key, (r0, a0) in before.items():
             r1, a1 = after.get(key, (None, None))
             if isinstance(key, int):
@@ -342,7 +349,7 @@ class Runner:
                     "returned-object" if exc is None and key == ret else "other"))
                 if role == "receiver" and mutable_recv:
                     continue
-                if role != "argument" and reaches_mutable(U.objs[key]):
+                if role != "argument" and updated_ids and reaches_mutable(U.objs[key], only=updated_ids):
                     continue        # documented immutable=False mode: whatever holds the one updated object follows it
                 cls = type(U.objs[key]).__name__
             else:
@@ -397,22 +404,23 @@ def table_key(t):
     return (t._table_name, txt(getattr(t, "_schema", None)), txt(getattr(t, "_for", None)), txt(getattr(t, "_for_portion", None)))
 
 
-def reaches_mutable(o, depth=5, seen=None):
-    """does o (transitively, through attributes / lists / tuples) hold a builder created with immutable=False?"""
+def reaches_mutable(o, depth=5, seen=None, only=None):
+    """does o (transitively, through attributes / lists / tuples) hold a builder created with immutable=False?
+    only: a set of id()s - then: does it hold (or is it) one of THESE objects"""
     seen = seen if seen is not None else set()
     if id(o) in seen or depth < 0 or isinstance(o, PRIMS):
         return False
     seen.add(id(o))
     if isinstance(o, (list, tuple, set)):
-        return any(reaches_mutable(x, depth - 1, seen) for x in o)
+        return any(reaches_mutable(x, depth - 1, seen, only) for x in o)
     if isinstance(o, dict):
-        return any(reaches_mutable(x, depth - 1, seen) for x in o.values())
+        return any(reaches_mutable(x, depth - 1, seen, only) for x in o.values())
     d = getattr(o, "__dict__", None)
     if not isinstance(d, dict):
         return False
-    if d.get("immutable", True) is False:
+    if (id(o) in only) if only is not None else (d.get("immutable", True) is False):
         return True
-    return any(reaches_mutable(x, depth - 1, seen) for x in d.values())
+    return any(reaches_mutable(x, depth - 1, seen, only) for x in d.values())
 
 
 def run_history(case, tab):
